@@ -43,6 +43,8 @@ type ServerRig struct {
 	flavours   []string
 	closed     bool
 	mu         sync.Mutex
+	addrs      map[string]string // bound addresses remembered for use after Close
+	netAddrs   map[string]net.Addr
 }
 
 // DefaultServerConfig: guest authentication, none/tls encryption, deterministic node assignment.
@@ -67,6 +69,15 @@ func DefaultServerConfig() *lime.ServerConfig {
 
 // StartServer builds and starts a server on the given transport flavours (TLS shares the TCP listener).
 func StartServer(cfg *lime.ServerConfig, mux *lime.EnvelopeMux, flavours []string, tcpReadLimit int64) (*ServerRig, error) {
+	return startServer(cfg, mux, flavours, tcpReadLimit, 0)
+}
+
+// StartServerExtra is StartServer with additional TCP listeners (nobody dials them; they take part in Close).
+func StartServerExtra(cfg *lime.ServerConfig, mux *lime.EnvelopeMux, flavours []string, extraTCP int) (*ServerRig, error) {
+	return startServer(cfg, mux, flavours, 0, extraTCP)
+}
+
+func startServer(cfg *lime.ServerConfig, mux *lime.EnvelopeMux, flavours []string, tcpReadLimit int64, extraTCP int) (*ServerRig, error) {
 	if mux == nil {
 		mux = &lime.EnvelopeMux{}
 	}
@@ -108,6 +119,11 @@ func StartServer(cfg *lime.ServerConfig, mux *lime.EnvelopeMux, flavours []strin
 			r.listeners[WSS] = l
 			bound = append(bound, lime.NewBoundListener(l, loop()))
 		}
+	}
+	for i := 0; i < extraTCP; i++ {
+		l := lime.NewTCPTransportListener(&lime.TCPConfig{})
+		r.listeners[fmt.Sprintf("tcp-extra-%d", i)] = l
+		bound = append(bound, lime.NewBoundListener(l, loop()))
 	}
 	r.Srv = lime.NewServer(cfg, mux, bound...)
 	inprocMu.Lock()
@@ -151,13 +167,71 @@ func StartServer(cfg *lime.ServerConfig, mux *lime.EnvelopeMux, flavours []strin
 	if !ok {
 		return nil, fmt.Errorf("listeners did not come up")
 	}
+	r.addrs = map[string]string{}
+	r.netAddrs = map[string]net.Addr{}
+	for f, l := range r.listeners {
+		if a := lime.VerifListenerAddr(l); a != nil {
+			r.addrs[f] = a.String()
+			r.netAddrs[f] = a
+		}
+	}
 	return r, nil
+}
+
+// LastAddr is the address a listener was bound to (still known after Close).
+func (r *ServerRig) LastAddr(f string) string { return r.addrs[f] }
+
+// EstablishClientNoLock is EstablishClient without serialising the in-process registry access
+// (used where concurrent dials during Close are the point).
+func (r *ServerRig) EstablishClientNoLock(ctx context.Context, f string, chanBuf, inprocBuf int, id lime.Identity, instance string) (*lime.ClientChannel, *lime.Session, error) {
+	var t lime.Transport
+	var err error
+	if f == InProc {
+		t, err = lime.DialInProcess(r.InProcAddr, inprocBuf)
+	} else {
+		t, err = r.Dial(ctx, f, inprocBuf, nil)
+	}
+	if err != nil {
+		return nil, nil, err
+	}
+	cc := lime.NewClientChannel(t, chanBuf)
+	ses, err := cc.EstablishSession(ctx, lime.NoneCompressionSelector, EncryptSelector(f), id, lime.GuestAuthenticator, instance)
+	if err != nil {
+		_ = cc.Close()
+		return nil, nil, err
+	}
+	if ses.State != lime.SessionStateEstablished {
+		_ = cc.Close()
+		return nil, ses, fmt.Errorf("session state %s (reason %v)", ses.State, ses.Reason)
+	}
+	return cc, ses, nil
+}
+
+// CloseNoLock closes the server without serialising in-process registry access.
+func (r *ServerRig) CloseNoLock(wait time.Duration) (error, bool) {
+	r.mu.Lock()
+	if r.closed {
+		r.mu.Unlock()
+		return nil, true
+	}
+	r.closed = true
+	r.mu.Unlock()
+	_ = r.Srv.Close()
+	select {
+	case err := <-r.ServeErr:
+		return err, true
+	case <-time.After(wait):
+		return nil, false
+	}
 }
 
 // Addr returns the bound address of a listener flavour.
 func (r *ServerRig) Addr(f string) net.Addr {
 	if f == TLS {
 		f = TCP
+	}
+	if a, ok := r.netAddrs[f]; ok {
+		return a // remembered: still usable (as a dead address) after Close
 	}
 	if l, ok := r.listeners[f]; ok {
 		return lime.VerifListenerAddr(l)
